@@ -22,7 +22,8 @@ section
 variable (T : Stat) {s : Store} {out : CSem2.Outcome} {lp : Bool × Bool} {brk cont : String} {c : SCtx}
   {nd nd' : Nat} {pre post : List Item} {env : Env} {M : Mem}
 
-theorem sim_dowhile (n : Nat) (ih : ∀ m, m ≤ n → SimStmt T m) (b : Stmt) (e : Expr)
+theorem sim_dowhile (n : Nat) (hc : ∀ m, m ≤ n → CallOK T m) (ih : ∀ m, m ≤ n → SimStmt T m) (b : Stmt)
+    (e : Expr3)
     (hex : exec T.S.cs T.P (n + 1) s (.dowhile b e) = some out) (hfr : frag T.P T.cnts (.dowhile b e) = true)
     (hwt : Stmt.wt T.vtys T.ret lp.1 lp.2 nd (.dowhile b e) = some nd') (hp : Pos T c nd pre)
     (hext : Ext T (funcstmt T.S.cs brk cont (.dowhile b e) c).ctx)
@@ -30,7 +31,9 @@ theorem sim_dowhile (n : Nat) (ih : ∀ m, m ≤ n → SimStmt T m) (b : Stmt) (
     (inv : SInv T.M0 T.S.cs T.cnts T.σ T.vtys s env M) :
     Post T lp brk cont (T.at env M pre) (pre ++ (funcstmt T.S.cs brk cont (.dowhile b e) c).items)
       (funcstmt T.S.cs brk cont (.dowhile b e) c).ctx out := by
-  simp only [frag] at hfr
+  simp only [frag, Bool.and_eq_true] at hfr
+  have hfe : efrag T e := by simp only [efrag, Bool.and_eq_true]; exact hfr.1
+  have hfr := hfr.2
   have hw' : ∃ n1, Stmt.wt T.vtys T.ret true true nd b = some n1 ∧
       (if e.wt (T.vtys.take nd) = true then some n1 else none) = some nd' := by
     simp only [Stmt.wt] at hwt
@@ -42,7 +45,7 @@ theorem sim_dowhile (n : Nat) (ih : ∀ m, m ≤ n → SimStmt T m) (b : Stmt) (
   · rename_i hwe
     cases hwt
     obtain ⟨hnb, hcb⟩ := wt_noDead _ _ b _ _ _ _ hwb
-    have hwe' : e.wt (T.vtys.take nd') = true := take_mono_wt (by omega) e hwe
+    have hwe' : e.wt (T.vtys.take nd') = true := take_mono_wt3 (by omega) e hwe
     simp only [funcstmt] at hext hits ⊢
     have gb := funcstmt_good T.S.cs b (lblName "do_join" (c.blockid + 3)) (lblName "do_cond" (c.blockid + 2))
       ((c.addBlocks 3).atLabel (lblName "do_body" (c.blockid + 1))) rfl hnb
@@ -50,10 +53,10 @@ theorem sim_dowhile (n : Nat) (ih : ∀ m, m ≤ n → SimStmt T m) (b : Stmt) (
       ((c.addBlocks 3).atLabel (lblName "do_body" (c.blockid + 1))) = ob at *
     have hj1 : (ob.ctx.atLabel (lblName "do_cond" (c.blockid + 2))).jump = none := rfl
     have hj2 : ((ob.ctx.atLabel (lblName "do_cond" (c.blockid + 2))).upd
-      (exprOut T.S.cs (ob.ctx.atLabel (lblName "do_cond" (c.blockid + 2))) e).ctx).jump = none := rfl
-    simp only [lowerE_eq T.S.cs hj1, lowerJnz_eq T.S.cs hj2] at hext hits ⊢
-    have ge := exprOut_good T.S.cs (ob.ctx.atLabel (lblName "do_cond" (c.blockid + 2))) e
-    generalize hoe : exprOut T.S.cs (ob.ctx.atLabel (lblName "do_cond" (c.blockid + 2))) e = oe at *
+      (exprOut3 T.S.cs (ob.ctx.atLabel (lblName "do_cond" (c.blockid + 2))) e).ctx).jump = none := rfl
+    simp only [lowerE3_eq T.S.cs hj1, lowerJnz_eq T.S.cs hj2] at hext hits ⊢
+    have ge := exprOut3_good T.S.cs (ob.ctx.atLabel (lblName "do_cond" (c.blockid + 2))) e
+    generalize hoe : exprOut3 T.S.cs (ob.ctx.atLabel (lblName "do_cond" (c.blockid + 2))) e = oe at *
     have sj := jnzArg_straight T.S.cs ((ob.ctx.atLabel (lblName "do_cond" (c.blockid + 2))).upd oe.ctx).ctx
       e.ty oe.val
     change Straight _ (jnzOut T.S.cs ((ob.ctx.atLabel (lblName "do_cond" (c.blockid + 2))).upd oe.ctx)
@@ -122,7 +125,7 @@ theorem sim_dowhile (n : Nat) (ih : ∀ m, m ≤ n → SimStmt T m) (b : Stmt) (
         intro hk s env M out hex inv
         -- the controlling expression, entered at `do_cond`
         have hcond : ∀ (s' : Store) (env' : Env) (M' : Mem),
-            ((evalE T.S.cs s' e).bind fun v =>
+            ((evalE3 T.S.cs (callOf T.P fun s' st' => exec T.S.cs T.P (k + 1) s' st') s' e).bind fun v =>
               if v ≠ 0 then exec T.S.cs T.P (k + 1) s' (.dowhile b e) else some (.normal s')) = some out →
             SInv T.M0 T.S.cs T.cnts T.σ T.vtys s' env' M' →
             Done T lp brk cont (T.at env' M' (((pre ++ [.lbl none (lblName "do_body" (c.blockid + 1)) []]) ++
@@ -131,20 +134,20 @@ theorem sim_dowhile (n : Nat) (ih : ∀ m, m ≤ n → SimStmt T m) (b : Stmt) (
                 [.lbl ob.ctx.jump (lblName "do_cond" (c.blockid + 2)) []]) ++ oe.items ++ oj.items ++
                 [.lbl (some (.jnz oj.val (lblName "do_body" (c.blockid + 1))
                   (lblName "do_join" (c.blockid + 3)))) (lblName "do_join" (c.blockid + 3)) []]) out := by
-          intro s' env' M' hc inv'
-          simp only [Option.bind_eq_some_iff] at hc
-          obtain ⟨v, hev, hc⟩ := hc
-          obtain ⟨k1, env1, st, hreach, inv1, hat⟩ := sim_branch T hpc e 0
-            (by rw [hoe, addBlocks_zero, hoj]; exact hextc) hwe' hev
+          intro s' env' M' hcd inv'
+          simp only [Option.bind_eq_some_iff] at hcd
+          obtain ⟨v, hev, hcd⟩ := hcd
+          obtain ⟨k1, env1, st, hreach, inv1, hat⟩ := sim_branch T (k + 1) (hc (k + 1) hk) hpc e 0
+            (by rw [hoe, addBlocks_zero, hoj]; exact hextc) hwe' hfe hev
             (by rw [hoe, addBlocks_zero, hoj]; exact hitsJ) hcb' hcj inv'
           by_cases hv0 : v ≠ 0
-          · rw [if_pos hv0] at hc hat
+          · rw [if_pos hv0] at hcd hat
             have hst := atLabel_item T hits0 hat
             subst hst
-            exact (ihk (by omega) s' env1 M' out hc inv1).prepend hreach
-          · rw [if_neg hv0] at hc hat
-            simp only [Option.some.injEq] at hc
-            subst hc
+            exact (ihk (by omega) s' env1 M' out hcd inv1).prepend hreach
+          · rw [if_neg hv0] at hcd hat
+            simp only [Option.some.injEq] at hcd
+            subst hcd
             have hst := atLabel_item T hitsJ hat
             subst hst
             exact ⟨k1, env1, M', hreach, inv1⟩
